@@ -29,18 +29,16 @@ Definition nostop : key -> bool := fun _ => false.
 
 Lemma scan_loop_nostop : forall l limit count,
   scan_loop nostop limit count l =
-  if (limit =? -1)%Z then l else firstn (Z.to_nat (Z.max 1 (limit - count))) l.
+  if (limit >? -1)%Z then firstn (Z.to_nat (limit - count)) l else l.
 Proof.
   induction l as [|x t IH]; intros limit count; simpl.
-  - destruct (limit =? -1)%Z; auto. destruct (Z.to_nat _); reflexivity.
-  - unfold nostop at 1. destruct (limit =? -1)%Z eqn:E; simpl.
-    + f_equal. rewrite IH, E. reflexivity.
-    + assert (Hs : exists n, Z.to_nat (Z.max 1 (limit - count)) = S n /\
-                    n = Z.to_nat (Z.max 1 (limit - count) - 1)) by (eexists; split; [|reflexivity]; lia).
-      destruct Hs as (n & -> & Hn). simpl. f_equal.
-      destruct (count + 1 >=? limit)%Z eqn:G.
-      * assert (n = 0)%nat by lia. subst n. rewrite H. reflexivity.
-      * rewrite IH, E. f_equal. lia.
+  - destruct (limit >? -1)%Z; auto. destruct (Z.to_nat _); reflexivity.
+  - destruct (limit >? -1)%Z eqn:E; simpl.
+    + destruct (count >=? limit)%Z eqn:G.
+      * assert (Hz : Z.to_nat (limit - count) = 0%nat) by lia. rewrite Hz. reflexivity.
+      * unfold nostop at 1. rewrite IH, E.
+        assert (Hs : Z.to_nat (limit - count) = S (Z.to_nat (limit - (count + 1)))) by lia. rewrite Hs. reflexivity.
+    + unfold nostop at 1. rewrite IH, E. reflexivity.
 Qed.
 
 (* [stop] is closed along the visit sequence: once it holds it holds for everything after *)
@@ -50,13 +48,19 @@ Fixpoint closed (stop : key -> bool) (l : list kv) : Prop :=
   | x :: t => (stop (fst x) = true -> forall y, In y t -> stop (fst y) = true) /\ closed stop t
   end.
 
+Lemma scan_loop_reached : forall stop limit count l, (limit >? -1)%Z && (count >=? limit)%Z = true ->
+  scan_loop stop limit count l = [].
+Proof. intros stop limit count [|x t] H; simpl; auto. rewrite H. reflexivity. Qed.
+
 Lemma scan_loop_closed : forall stop l limit count, closed stop l ->
   scan_loop stop limit count l = scan_loop nostop limit count (filter (fun x => negb (stop (fst x))) l).
 Proof.
   induction l as [|x t IH]; intros limit count Hc; simpl; auto. destruct Hc as [H1 H2].
-  destruct (stop (fst x)) eqn:E; simpl.
-  - rewrite filter_none; auto. intros y Hy. rewrite (H1 eq_refl y Hy). reflexivity.
-  - unfold nostop at 1. f_equal. destruct (negb (limit =? -1)%Z && (count + 1 >=? limit)%Z); auto.
+  destruct ((limit >? -1)%Z && (count >=? limit)%Z) eqn:R.
+  - symmetry. apply scan_loop_reached. exact R.
+  - destruct (stop (fst x)) eqn:E; simpl.
+    + rewrite filter_none; auto. intros y Hy. rewrite (H1 eq_refl y Hy). reflexivity.
+    + rewrite R. unfold nostop at 1. f_equal. auto.
 Qed.
 
 Lemma closed_asc : forall e l, ssorted ltb l -> closed (fun k => ltb e k) l.
@@ -150,11 +154,14 @@ Theorem iterate_key_exact : forall db p limit reverse, wf_key p -> wf_db db ->
   iterate_key db p limit reverse = map fst (prefix_spec db p limit reverse).
 Proof. intros. unfold iterate_key. rewrite iterate_prefix_exact; auto. Qed.
 
-(* with limit -1 the whole selection comes back; with a limit >= 1 exactly the first [limit] keys *)
+(* the limit reading of pkg/db is the one of diffdb's mergeSortLimit, for EVERY limit *)
+Corollary eff_limit_take_limit : forall limit (l : list kv), eff_limit limit l = take_limit limit l.
+Proof. reflexivity. Qed.
+
 Corollary eff_limit_sane : forall limit l,
-  (limit = -1 -> eff_limit limit l = l)%Z /\ (1 <= limit -> eff_limit limit l = firstn (Z.to_nat limit) l)%Z.
+  (limit < 0 -> eff_limit limit l = l)%Z /\ (0 <= limit -> eff_limit limit l = firstn (Z.to_nat limit) l)%Z.
 Proof.
   intros. unfold eff_limit. split; intros H.
-  - subst. reflexivity.
-  - assert (E : (limit =? -1)%Z = false) by (apply Z.eqb_neq; lia). rewrite E. rewrite Z.max_r by lia. reflexivity.
+  - assert (E : (limit >? -1)%Z = false) by lia. rewrite E. reflexivity.
+  - assert (E : (limit >? -1)%Z = true) by lia. rewrite E. reflexivity.
 Qed.
